@@ -312,7 +312,10 @@ impl LLFree<'_> {
     fn check(&self, frame: FrameId, request: &Request) -> Result<()> {
         ensure!(request.order <= TREE_ORDER, "Invalid order {request:?}");
         ensure!(
-            frame.0 + (1 << request.order) <= self.lower.frames(),
+            frame
+                .0
+                .checked_add(1 << request.order)
+                .is_some_and(|end| end <= self.lower.frames()),
             "Frame {} out of bounds",
             frame.0
         );
